@@ -997,6 +997,8 @@ impl PrunePlan {
             // if percentag is given, we want to have
             // unused <= p/100 * size_after = p/100 * (size_used + unused)
             // which equals (1 - p/100) * unused <= p/100 * size_used
+            // 100% (or more) unused space allowed means: no limit
+            (false, LimitOption::Percentage(p)) if *p >= 100 => u64::MAX,
             (false, LimitOption::Percentage(p)) => (p * self.stats.size_sum().used) / (100 - p),
         };
 
